@@ -5,5 +5,7 @@ CONSTANTS
   MaxAttempts = 2
   ClearOnFail = TRUE
   ClearOnReadFail = FALSE
+  CtxEarly = FALSE
+  ClearLate = FALSE
   UseLock = TRUE
 INVARIANT NoResidue
